@@ -355,6 +355,10 @@ func (s *SecureConfig) Check(filePath string) (bool, error) {
 	}
 	defer file.Close()
 
+	// The hash object keeps its state between calls: start from scratch, so
+	// that a SecureConfig can be used for more than one check.
+	s.Hash.Reset()
+
 	_, err = io.Copy(s.Hash, file)
 	if err != nil {
 		return false, err
